@@ -94,7 +94,8 @@ def typeKey (c : Char) : Key := canon { auth := runtimeAuthority, ns := "type", 
 def filesExec (fs ths sch : List Sexp) : String :=
   match fs.mapM letterOf, ths.mapM (fun t => match t with
       | .list (.atom "th" :: ops) => ops.mapM fun o => match o with
-        | .list [.atom "load", x] => (letterOf x).map typeKey
+        | .list [.atom "load", x] => (letterOf x).map fun c => Pcore.Instantiate.FOp.load (typeKey c)
+        | .list [.atom "loadp", x] => (letterOf x).map fun c => Pcore.Instantiate.FOp.loadParent (typeKey c)
         | _ => none
       | _ => none), sch.mapM Sexp.nat? with
   | some letters, some (p :: progs), some sched =>
